@@ -50,9 +50,9 @@ K_lf == L(<<"k">>, <<"l", "f">>)
 K_lua == L(<<"k">>, <<"l", "..", "a">>)           \* ".." after a link
 DL_ua == L(<<"d", "l">>, <<"..", "a">>)           \* d/l -> ../a   (stays inside)
 
-UFullQ == {A, Dd, DA, D_ef, HID, ABS, GMAP, LNK, EXE, MBX, PYG, L_a, L_d, L_Aa, L_ua, L_m, M_l, M_a, L_x, L_uu, K_la, DL_ua}
-UCoreQ == {A, Dd, DA, L_a, L_d, L_Aa, L_ua, L_m, M_l, M_a, L_x, K_la, DL_ua, GMAP}
 D_la == L(<<"d", "l">>, <<"a">>)                  \* d/l -> a     (relative to its own directory)
+UFullQ == {A, Dd, DA, D_ef, HID, ABS, GMAP, LNK, EXE, MBX, PYG, L_a, L_d, L_Aa, L_ua, L_m, M_l, M_a, L_x, L_uu, K_la, DL_ua, D_la}
+UCoreQ == {A, Dd, DA, L_a, L_d, L_Aa, L_ua, L_m, M_l, M_a, L_x, K_la, DL_ua, GMAP}
 UCoreT == {A, DA, D_ef, L_a, L_d, L_de, L_m, M_l, M_a, L_x, K_la, K_lf, K_lua, DL_ua, D_la}
 UCoreT5 == {A, DA, D_ef, L_d, L_de, L_m, M_l, M_a, K_la, K_lf}
 
@@ -102,7 +102,10 @@ TouchesFwd(m, s, sel) ==
 \* from the reference; the link, everything below it and the listing that shows it
 TouchesDotDot(m, s, sel) ==
     \E k \in CancellingDotDot(m) : ~Same(m, s, NoMemo, k.p) /\ (IsPrefix(k.p, sel) \/ sel = Front(k.p))
-Excused(m, s, sel) == ("negmemo" \in Known /\ TouchesFwd(m, s, sel)) \/ ("lexdotdot" \in Known /\ TouchesDotDot(m, s, sel))
+\* cp437link: archives with a relative link inside a directory whose name is raw non-ASCII bytes
+Excused(m, s, sel) == \/ ("negmemo" \in Known /\ TouchesFwd(m, s, sel))
+                      \/ ("lexdotdot" \in Known /\ TouchesDotDot(m, s, sel))
+                      \/ ("cp437link" \in Known /\ RawDirLinks(m) # {})
 
 Summary ==
     [sels  |-> SetAsSeq(
